@@ -4,7 +4,7 @@
 package raczstd
 
 // Export for the /verif C13 correspondence check (refine vs. the Lean model
-// Model/Rac/Dict.lean). Compiled only with the "verif" build tag.
+// Model/Rac/DictSaver.lean). Compiled only with the "verif" build tag.
 
 // VerifRefine is refine.
 func VerifRefine(b []byte) []byte { return refine(b) }
